@@ -4,7 +4,8 @@ CONSTANTS
   Lines <- MC_Lines_quick
   MaxCount = 2
   BadBytes = "BADBYTES"
-  FailModes = {FALSE}
+  FailModes = {FALSE, TRUE}
+  StrictModes = {FALSE, TRUE}
 CONSTRAINT Bounded
 VIEW View
 INVARIANT RegIsBalance
